@@ -272,6 +272,77 @@ pub fn run(rep: &mut Report, thorough: bool) {
         );
         rep.stage("version-differential-words", "selected payloads x every 16-bit word position (both alignments) x 1300 values (thorough: all 65536 over the first 64 positions), each sent over IPv4 and over IPv6: same canonical answer", total, t0);
     }
+    // IP-version differential over the ENVELOPE: the same payload marked the same way on both IP
+    // versions (DSCP / ECN = IPv4 TOS = IPv6 traffic class, all 256 values; TTL = hop limit, all
+    // 256 values; IPv4 id / IPv6 flow label, edge values): same canonical answer
+    {
+        let t0 = std::time::Instant::now();
+        let names = ["http-get", "stun-classic-change-port", "rpc-udp-getaddr", "dns-a", "ssh-2"];
+        let bases: Vec<&Payload> = udp_sel.iter().filter(|p| names.contains(&p.name)).cloned().collect();
+        let labels: Vec<u32> = crate::deviate::EDGE16.iter().cloned().chain([0x10000u32, 0xfffff]).collect();
+        let nf = 256 + 256 + labels.len() as u64;
+        let total = bases.len() as u64 * nf;
+        let f4 = flow4(40000, 80);
+        let f6 = flow6(40000, 80);
+        let mk = |bi: usize, k: u64| -> (Vec<u8>, Vec<u8>, String) {
+            let mut a = f4.udp(&bases[bi].bytes);
+            let mut b = f6.udp(&bases[bi].bytes);
+            let what;
+            if k < 256 {
+                let tc = k as u8;
+                a[15] = tc;
+                b[14] = 0x60 | (tc >> 4);
+                b[15] = (b[15] & 0x0f) | (tc << 4);
+                what = format!("TOS / traffic class {:#04x}", tc);
+            } else if k < 512 {
+                a[22] = (k - 256) as u8;
+                b[21] = (k - 256) as u8;
+                what = format!("TTL / hop limit {}", k - 256);
+            } else {
+                let l = labels[(k - 512) as usize];
+                a[18] = (l >> 8) as u8;
+                a[19] = l as u8;
+                b[15] = (b[15] & 0xf0) | ((l >> 16) as u8 & 0x0f);
+                b[16] = (l >> 8) as u8;
+                b[17] = l as u8;
+                what = format!("IPv4 id / IPv6 flow label {:#x}", l);
+            }
+            refresh_checksums(&mut a);
+            (a, b, what)
+        };
+        let opts = RunOpts::new("version-differential-envelope").no_monitor();
+        let cfgv = cfg.clone();
+        engine::run(
+            &cfg,
+            total,
+            &opts,
+            |i| {
+                let (a, b, _) = mk((i / nf) as usize, i % nf);
+                vec![Cmd::Frame(a), Cmd::Frame(b)]
+            },
+            |it: &Item, sk: &mut Sink| {
+                sk.count("frames", 2);
+                let bi = (it.idx / nf) as usize;
+                let p = bases[bi];
+                let a = canon_checked(p.name, &p.bytes, it.outs[0].reply.as_deref(), &ctx_of(&f4, false));
+                let b = canon_checked(p.name, &p.bytes, it.outs[1].reply.as_deref(), &ctx_of(&f6, false));
+                if !same(&a, &b) {
+                    let (_, _, what) = mk(bi, it.idx % nf);
+                    sk.violation(Violation {
+                        prop: "C19".into(),
+                        key: format!("version-dependence:envelope:{}", p.name),
+                        what: format!("payload '{}' with {}: over IPv4 {} / over IPv6 {}", p.name, what, a, b),
+                        cfg: cfgv.clone(),
+                        cmds: it.cmds.to_vec(),
+                        idx: it.idx,
+                        stage: "version-differential-envelope".into(),
+                    });
+                }
+            },
+            &mut rep.sink,
+        );
+        rep.stage("version-differential-envelope", "5 payloads x {TOS = traffic class: 256 values, TTL = hop limit: 256 values, IPv4 id / IPv6 flow label: 24 values}, the same marking on both IP versions: same canonical answer", total, t0);
+    }
     // soak: 70 000 datagrams into ONE responder process (round robin over the payloads, running
     // source ports, alternating IP version): every canonical answer still equals the reference
     {
